@@ -31,6 +31,7 @@
 #include <sys/types.h>
 #include <fcntl.h>
 #include <poll.h>
+#include <sys/personality.h>
 
 /* ---------------------------------------------------------------- PRNG --- */
 /* splitmix64: the harness's own generator, independent of the library's.    */
@@ -235,8 +236,13 @@ static void vr_abnormal_key(int status, int timed_out, const char *err, char *ke
 
 static int vr_main(int argc, char **argv)
 {
+    /* replay determinism: run without address-space randomisation (the library has address-keyed hash maps) */
+    if (!getenv("VR_NO_REEXEC")) {
+        int pers = personality(0xffffffff);
+        if (pers != -1 && !(pers & ADDR_NO_RANDOMIZE) && personality(pers | ADDR_NO_RANDOMIZE) != -1) { setenv("VR_NO_REEXEC", "1", 1); execv("/proc/self/exe", argv); }
+    }
     uint64_t seed = 1, from = 0, to = 1; int profile = 0, nofork = 0; int timeout_s = 60;
-    int keep_fp = 1;
+    int keep_fp = 1, hang_is_violation = 0;
     for (int i = 1; i < argc; i++) {
         if (!strcmp(argv[i], "--seed") && i + 1 < argc) seed = strtoull(argv[++i], NULL, 0);
         else if (!strcmp(argv[i], "--from") && i + 1 < argc) from = strtoull(argv[++i], NULL, 0);
@@ -246,6 +252,7 @@ static int vr_main(int argc, char **argv)
         else if (!strcmp(argv[i], "--nofork")) nofork = 1;
         else if (!strcmp(argv[i], "--verbose")) vr_verbose = 1;
         else if (!strcmp(argv[i], "--nofp")) keep_fp = 0;
+        else if (!strcmp(argv[i], "--hang-violation")) hang_is_violation = 1;
         else { fprintf(stderr, "unknown arg %s\n", argv[i]); return 2; }
     }
     if (nofork) {
@@ -335,7 +342,13 @@ retry:;
         if (abnormal) {
             char key[300], detail[400];
             vr_abnormal_key(status, timed_out, ebuf, key, sizeof key, detail, sizeof detail);
-            if (timed_out) { case_inconc = 1; if (!inconc_first) { char b[200]; snprintf(b, sizeof b, "seed=%" PRIu64 " case=%" PRIu64 " watchdog %ds expired twice", seed, idx, timeout_s); inconc_first = strdup(b); } }
+            if (timed_out && hang_is_violation) {
+                nabnormal++; case_viol = 1;
+                int k; for (k = 0; k < nvk; k++) if (strcmp(viol[k].key, "hang") == 0) break;
+                if (k == nvk && nvk < 200) { snprintf(viol[k].key, sizeof viol[k].key, "hang"); snprintf(viol[k].detail, sizeof viol[k].detail, "seed=%" PRIu64 " case=%" PRIu64 " did not finish within %d s (twice)", seed, idx, timeout_s); viol[k].idx = idx; nvk++; }
+                if (k < nvk) viol[k].count++;
+            }
+            else if (timed_out) { case_inconc = 1; if (!inconc_first) { char b[200]; snprintf(b, sizeof b, "seed=%" PRIu64 " case=%" PRIu64 " watchdog %ds expired twice", seed, idx, timeout_s); inconc_first = strdup(b); } }
             else {
                 nabnormal++; case_viol = 1;
                 int k; for (k = 0; k < nvk; k++) if (strcmp(viol[k].key, key) == 0) break;
